@@ -1229,6 +1229,17 @@ fn script_api(rng: &mut Rng, tier: Tier, ex: &mut dyn FnMut(&str) -> String) {
                 ex(&format!("stat c{}", h));
             }
         }
+        if rng.chance(1, 4) {
+            // the server's query API, for a known and for an unknown id (judged against `ids` / `stat`)
+            let q = if rng.chance(1, 4) { rng.pick(&[99u64, 103, 1 << 40]) } else { id };
+            ex("ids");
+            ex(&format!("stat s{}", q));
+            ex(&format!("sq {}", q));
+            if rng.chance(1, 2) {
+                ex(&format!("avail s{} {}", q, rng.pick(&[0, 1, 2])));
+                ex(&format!("cansend s{} {} {}", q, rng.pick(&[0, 1, 2]), rng.pick(&[0u64, 1, 1200, 5_000_000, 6_000_000])));
+            }
+        }
     }
     for _ in 0..40 {
         if ex("ev") == "none" {
@@ -1236,6 +1247,65 @@ fn script_api(rng: &mut Rng, tier: Tier, ex: &mut dyn FnMut(&str) -> String) {
         }
     }
     ex("ids");
+}
+
+/// C11 / C12 / C20 (what the message layer reports): `has_connections`, `connected_clients`, `is_connected(id)` and
+/// `disconnect_reason(id)` agree with `clients_id` / `disconnections_id` and with the connection's own status
+/// (ops `ids`, `stat s<id>`, `sq <id>` issued back to back).
+fn oracle_server_queries(ops: &[String], outs: &[String]) -> Option<OracleFail> {
+    for i in 2..ops.len() {
+        let t: Vec<&str> = ops[i].split(' ').collect();
+        if t.len() != 2 || t[0] != "sq" || ops[i - 2] != "ids" || ops[i - 1] != format!("stat s{}", t[1]) {
+            continue;
+        }
+        let ids_out = &outs[i - 2];
+        let lists: Vec<Vec<&str>> = ids_out.split('[').skip(1).map(|p| p.split(']').next().unwrap_or("").split(',').filter(|x| !x.is_empty()).collect()).collect();
+        if lists.len() != 2 {
+            continue;
+        }
+        let (conn, disc) = (&lists[0], &lists[1]);
+        let stat = &outs[i - 1];
+        let mut f: HashMap<&str, &str> = HashMap::new();
+        for kv in outs[i].split(' ') {
+            if let Some((k, v)) = kv.split_once('=') {
+                f.insert(k, v);
+            }
+        }
+        if f.len() != 4 {
+            continue; // bad-op / dead: judged elsewhere
+        }
+        let want_has = !(conn.is_empty() && disc.is_empty());
+        let want_n = conn.len().to_string();
+        let want_is = conn.contains(&t[1]);
+        let want_reason = stat.strip_prefix("disconnected:").unwrap_or("none");
+        if f["has"] != want_has.to_string() {
+            return fail(i, "has-connections-wrong", format!("has_connections() = {} but clients_id = {:?}, disconnections_id = {:?}", f["has"], conn, disc));
+        }
+        if f["n"] != want_n {
+            return fail(i, "connected-clients-wrong", format!("connected_clients() = {} but clients_id has {} entries", f["n"], want_n));
+        }
+        if f["is"] != want_is.to_string() {
+            return fail(i, "is-connected-wrong", format!("is_connected({}) = {} but clients_id = {:?}", t[1], f["is"], conn));
+        }
+        if stat != "notfound" && f["reason"] != want_reason {
+            return fail(i, "disconnect-reason-wrong", format!("disconnect_reason({}) = {} but the connection's status is `{}`", t[1], f["reason"], stat));
+        }
+        if stat == "notfound" && (f["reason"] != "none" || f["is"] != "false") {
+            return fail(i, "unknown-client-reported", format!("unknown client {}: {}", t[1], outs[i]));
+        }
+        // unknown client: no memory, nothing can be sent
+        if stat == "notfound" {
+            for j in i + 1..(i + 3).min(ops.len()) {
+                if ops[j].starts_with(&format!("avail s{} ", t[1])) && outs[j] != "0" {
+                    return fail(j, "unknown-client-memory", format!("channel_available_memory for unknown client {} = {}", t[1], outs[j]));
+                }
+                if ops[j].starts_with(&format!("cansend s{} ", t[1])) && outs[j] != "false" {
+                    return fail(j, "unknown-client-can-send", format!("can_send_message for unknown client {} = {}", t[1], outs[j]));
+                }
+            }
+        }
+    }
+    None
 }
 
 // ---------------------------------------------------------------------------------------------
@@ -3338,6 +3408,8 @@ pub fn oracles() -> Vec<Oracle> {
         Oracle { prop: "C09", name: "duplicates-harmless", engines: &["rn-tight", "rn-pair", "rn-timing"], check: oracle_duplicates_harmless },
         Oracle { prop: "C01", name: "duplicates-harmless", engines: &["rn-tight", "rn-pair", "rn-timing"], check: oracle_duplicates_harmless },
         Oracle { prop: "C02", name: "duplicates-harmless", engines: &["rn-tight", "rn-pair", "rn-timing"], check: oracle_duplicates_harmless },
+        Oracle { prop: "C12", name: "server-queries", engines: &["rn-api"], check: oracle_server_queries },
+        Oracle { prop: "C11", name: "server-queries", engines: &["rn-api"], check: oracle_server_queries },
         Oracle { prop: "C15", name: "never-after-ack-processed", engines: &["rn-pair", "rn-timing", "rn-acks", "rn-tight", "rn-long", "rn-unrel"], check: oracle_c15_acked },
         Oracle { prop: "C14", name: "unreliable-work-conserving", engines: &["rn-unrel", "rn-pair", "rn-timing", "rn-long"], check: oracle_unrel_work_conserving },
         Oracle { prop: "C11", name: "unreliable-work-conserving", engines: &["rn-unrel", "rn-pair", "rn-timing", "rn-long"], check: oracle_unrel_work_conserving },
